@@ -1,4 +1,352 @@
-use crate::core::{Ctx, Outcome};
-use serde_json::Value;
-pub fn run(_ctx: &Ctx) -> Outcome { unimplemented!() }
-pub fn replay(_ctx: &Ctx, _r: &Value) -> i32 { 2 }
+//! C17 — the metainfo model is a faithful, safe reading of the .torrent.
+//! E-ENUM: (a) totality over every short string of the C16 alphabet, (b) a grammar of well-formed
+//! documents with present/absent/ill-typed/zero/huge fields against the harness's own reading,
+//! every accessor called under catch_unwind, (c) create_file round trips for boundary sizes.
+
+use crate::core::{self, Ctx, Outcome};
+use crate::refb::{self, V};
+use crate::strings;
+use rdest::Metainfo;
+use serde_json::{json, Value};
+
+#[derive(Clone, Debug, PartialEq)]
+pub struct Reading {
+    pub announce: String,
+    pub name: String,
+    pub piece_length: u64,
+    pub pieces: Vec<[u8; 20]>,
+    pub files: Vec<(u64, String)>,
+}
+
+fn get<'a>(d: &'a V, key: &[u8]) -> Option<&'a V> {
+    match d {
+        V::Dict(e) => e.iter().rev().find(|(k, _)| k == key).map(|(_, v)| v),
+        _ => None,
+    }
+}
+
+/// What the document's top-level dictionary says, or None if a mandatory field is missing or
+/// ill-typed (then nothing is demanded of a successful parse except safety).
+pub fn read(top: &V) -> Option<Reading> {
+    let announce = match get(top, b"announce")? {
+        V::Str(s) => String::from_utf8(s.clone()).ok()?,
+        _ => return None,
+    };
+    let info = get(top, b"info")?;
+    let name = match get(info, b"name")? {
+        V::Str(s) => String::from_utf8(s.clone()).ok()?,
+        _ => return None,
+    };
+    let piece_length = match get(info, b"piece length")? {
+        V::Int(i) if *i >= 0 => *i as u64,
+        _ => return None,
+    };
+    let pieces = match get(info, b"pieces")? {
+        V::Str(s) if s.len() % 20 == 0 => s.chunks(20).map(|c| <[u8; 20]>::try_from(c).unwrap()).collect(),
+        _ => return None,
+    };
+    let length = match get(info, b"length") {
+        Some(V::Int(i)) if *i >= 0 => Some(*i as u64),
+        _ => None,
+    };
+    let files = match get(info, b"files") {
+        Some(V::List(l)) => Some(
+            l.iter()
+                .filter_map(|e| match (get(e, b"length"), get(e, b"path")) {
+                    (Some(V::Int(len)), Some(V::Str(p))) if *len >= 0 => {
+                        String::from_utf8(p.clone()).ok().map(|p| (*len as u64, p))
+                    }
+                    _ => None,
+                })
+                .collect::<Vec<_>>(),
+        ),
+        _ => None,
+    };
+    let files = match (length, files) {
+        (Some(l), None) => vec![(l, name.clone())],
+        (None, Some(f)) => f,
+        _ => return None,
+    };
+    Some(Reading { announce, name, piece_length, pieces, files })
+}
+
+pub fn check_doc(doc: &[u8]) -> (bool, Option<(&'static str, String)>) {
+    let m = match core::catch(|| Metainfo::from_bencode(doc)) {
+        Err(p) => return (false, Some(("from_bencode-panic", format!("document {}: {}", core::show(doc), p)))),
+        Ok(Err(_)) => return (false, None),
+        Ok(Ok(m)) => m,
+    };
+    // faithful reading
+    if let Ok(vals) = refb::parse_all(doc) {
+        if let Some(top) = vals.iter().find(|v| matches!(v, V::Dict(_))) {
+            if let Some(want) = read(top) {
+                let got_pieces: Vec<[u8; 20]> = match core::catch(|| (0..m.pieces_num()).map(|i| *m.piece(i)).collect()) {
+                    Ok(p) => p,
+                    Err(p) => return (true, Some(("accessor-panic", format!("piece(): {} on {}", p, core::show(doc))))),
+                };
+                let dbg = format!("{:?}", m);
+                let files_ok = want.files.iter().all(|(l, p)| dbg.contains(&format!("File {{ length: {}, path: {:?} }}", l, p)));
+                let files_dbg = format!("files: [{}]", want.files.iter().map(|(l, p)| format!("File {{ length: {}, path: {:?} }}", l, p)).collect::<Vec<_>>().join(", "));
+                if m.tracker_url() != &want.announce
+                    || !dbg.contains(&format!("name: {:?}", want.name))
+                    || !dbg.contains(&format!("piece_length: {}", want.piece_length))
+                    || got_pieces != want.pieces
+                    || !files_ok
+                    || !dbg.contains(&files_dbg)
+                {
+                    return (true, Some(("fields-differ", format!("document {} read as {} but says {:?}", core::show(doc), dbg, want))));
+                }
+                // a wrapping sum must not go unnoticed either
+                let total: u128 = want.files.iter().map(|f| f.0 as u128).sum();
+                match core::catch(|| m.total_length()) {
+                    Ok(t) if t as u128 == total => {}
+                    Ok(t) => return (true, Some(("total-length-wrong", format!("document {}: total_length() = {} but the lengths add up to {}", core::show(doc), t, total)))),
+                    Err(p) => return (true, Some(("accessor-panic-length-overflow", format!("total_length(): {} on {}", p, core::show(doc))))),
+                }
+            }
+        }
+    }
+    // every accessor is safe for every valid piece index
+    let n = match core::catch(|| m.pieces_num()) {
+        Ok(n) => n,
+        Err(p) => return (true, Some(("accessor-panic", format!("pieces_num(): {}", p)))),
+    };
+    for i in 0..n {
+        if let Err(p) = core::catch(|| {
+            let _ = m.piece(i);
+            m.piece_length(i)
+        }) {
+            let class = if p.contains("divisor of zero") || p.contains("divide by zero") {
+                "accessor-panic-piece-length-zero"
+            } else if p.contains("overflow") {
+                "accessor-panic-length-overflow"
+            } else {
+                "accessor-panic"
+            };
+            return (true, Some((class, format!("piece_length({}): {} on {}", i, p, core::show(doc)))));
+        }
+    }
+    for (name, r) in [
+        ("tracker_url", core::catch(|| { let _ = m.tracker_url(); })),
+        ("total_length", core::catch(|| { let _ = m.total_length(); })),
+        ("info_hash", core::catch(|| { let _ = m.info_hash(); })),
+        ("file_piece_ranges", core::catch(|| { let _ = m.file_piece_ranges(); })),
+    ] {
+        if let Err(p) = r {
+            let class = if p.contains("divisor of zero") || p.contains("divide by zero") {
+                "accessor-panic-piece-length-zero"
+            } else if p.contains("overflow") {
+                "accessor-panic-length-overflow"
+            } else {
+                "accessor-panic"
+            };
+            return (true, Some((class, format!("{}(): {} on {}", name, p, core::show(doc)))));
+        }
+    }
+    (true, None)
+}
+
+fn opt_entries(key: &str, choices: &[Option<V>]) -> Vec<Option<(Vec<u8>, V)>> {
+    choices.iter().map(|c| c.clone().map(|v| (key.as_bytes().to_vec(), v))).collect()
+}
+
+pub fn grammar(thorough: bool) -> Vec<Vec<u8>> {
+    let big = 1i64 << 40;
+    let announce = opt_entries("announce", &[Some(refb::s("http://t/a")), None, Some(V::Int(1))]);
+    let names = opt_entries("name", &[Some(refb::s("n")), Some(V::Str(vec![0xff, 0xfe])), None, Some(V::Int(3))]);
+    let plens: Vec<Option<V>> = [-1, 0, 1, 5, 16384, big, i64::MAX].iter().map(|i| Some(V::Int(*i))).chain([None, Some(refb::s("5"))]).collect();
+    let plens = opt_entries("piece length", &plens);
+    let pieces = opt_entries(
+        "pieces",
+        &[
+            Some(V::Str(vec![])),
+            Some(V::Str((0..20).collect())),
+            Some(V::Str((0..40).collect())),
+            Some(V::Str((0..19).collect())),
+            None,
+            Some(V::Int(20)),
+        ],
+    );
+    let lengths: Vec<Option<V>> = [0, 1, 5, big, i64::MAX, -1].iter().map(|i| Some(V::Int(*i))).chain([None, Some(refb::s("5"))]).collect();
+    let lengths = opt_entries("length", &lengths);
+    let fe = |len: V, path: V| refb::dict(vec![("length", len), ("path", path)]);
+    let file_entries: Vec<V> = vec![
+        fe(V::Int(0), refb::s("z")),
+        fe(V::Int(1), refb::s("a")),
+        fe(V::Int(big), refb::s("d/b")),
+        fe(V::Int(i64::MAX), refb::s("c")),
+        fe(V::Int(-1), refb::s("neg")),
+        fe(V::Int(2), V::Str(vec![0xff])),
+        refb::dict(vec![("length", V::Int(2))]),
+        V::Int(9),
+    ];
+    let mut file_lists: Vec<Option<V>> = vec![None, Some(V::List(vec![])), Some(V::Int(1))];
+    for a in &file_entries {
+        file_lists.push(Some(V::List(vec![a.clone()])));
+        for b in &file_entries {
+            file_lists.push(Some(V::List(vec![a.clone(), b.clone()])));
+            if thorough {
+                for c in &file_entries[..4] {
+                    file_lists.push(Some(V::List(vec![a.clone(), b.clone(), c.clone()])));
+                }
+            }
+        }
+    }
+    // three lengths whose sum leaves u64 (two i64::MAX do not)
+    file_lists.push(Some(V::List(vec![file_entries[3].clone(), file_entries[3].clone(), file_entries[3].clone()])));
+    let files = opt_entries("files", &file_lists);
+    let extras: [Option<(Vec<u8>, V)>; 2] = [None, Some((b"comment".to_vec(), refb::dict(vec![("piece length", V::Int(7)), ("name", refb::s("x"))])))];
+
+    let mut docs = vec![];
+    let mut push = |a: &Option<(Vec<u8>, V)>, info: Vec<&Option<(Vec<u8>, V)>>, extra: &Option<(Vec<u8>, V)>| {
+        let info_entries: Vec<(Vec<u8>, V)> = info.into_iter().filter_map(|e| e.clone()).collect();
+        let mut top: Vec<(Vec<u8>, V)> = vec![];
+        if let Some(a) = a {
+            top.push(a.clone());
+        }
+        if let Some(e) = extra {
+            top.push(e.clone());
+        }
+        top.push((b"info".to_vec(), V::Dict(info_entries)));
+        docs.push(refb::enc(&V::Dict(top)));
+    };
+    // full product of the numeric/layout fields with a good name/announce ...
+    for pl in &plens {
+        for p in &pieces {
+            for l in &lengths {
+                for f in &files {
+                    if l.is_some() && f.is_some() && !matches!(f, Some((_, V::List(x))) if x.len() <= 1) {
+                        continue; // length + files conflicts are covered with short lists only
+                    }
+                    push(&announce[0], vec![l, f, &names[0], pl, p], &extras[0]);
+                }
+            }
+        }
+    }
+    // ... and the announce/name/extra-key variants with a reduced layout alphabet
+    for a in &announce {
+        for n in &names {
+            for ex in &extras {
+                for pl in [&plens[0], &plens[1], &plens[3], &plens[7]] {
+                    for p in [&pieces[1], &pieces[3], &pieces[4]] {
+                        for (l, f) in [(&lengths[2], &files[0]), (&lengths[6], &files[3]), (&lengths[6], &files[0])] {
+                            push(a, vec![l, f, n, pl, p], ex);
+                        }
+                    }
+                }
+            }
+        }
+    }
+    docs.sort();
+    docs.dedup();
+    docs
+}
+
+fn create_file_case(dir: &std::path::Path, name: &str, len: usize) -> Option<(&'static str, String)> {
+    core::wipe_dir(dir);
+    let content: Vec<u8> = (0..len).map(|i| ((i * 7 + i / 251) % 256) as u8).collect();
+    let sub = dir.join("src");
+    std::fs::create_dir_all(&sub).unwrap();
+    let path = sub.join(name);
+    std::fs::write(&path, &content).unwrap();
+    match core::catch(|| Metainfo::create_file(&path, &"http://tracker/announce".to_string())) {
+        Err(p) => return Some(("create_file-panic", format!("len {}: {}", len, p))),
+        Ok(Err(e)) => return Some(("create_file-fails", format!("len {} name {:?}: {:?}", len, name, e))),
+        Ok(Ok(())) => {}
+    }
+    let tpath = dir.join(format!("{}.torrent", name));
+    let m = match core::catch(|| Metainfo::from_file(&tpath)) {
+        Ok(Ok(m)) => m,
+        other => return Some(("created-torrent-unreadable", format!("len {} name {:?}: {:?}", len, name, other.map(|r| r.map(|_| ()))))),
+    };
+    let want: Vec<[u8; 20]> = content.chunks(262144).map(core::sha1).collect();
+    let got: Vec<[u8; 20]> = (0..m.pieces_num()).map(|i| *m.piece(i)).collect();
+    let dbg = format!("{:?}", m);
+    if got != want || m.total_length() != len as u64 || !dbg.contains(&format!("name: {:?}", name)) || m.tracker_url() != "http://tracker/announce" {
+        return Some(("created-torrent-differs", format!("len {} name {:?}: pieces {} (want {}), total {}, {}", len, name, got.len(), want.len(), m.total_length(), &dbg[..dbg.len().min(200)])));
+    }
+    None
+}
+
+pub fn run(ctx: &Ctx) -> Outcome {
+    // (a) totality
+    let max_len = ctx.tier.pick(6, 7);
+    let accs = strings::for_all(max_len, || (0u64, 0u64), |acc, s| {
+        acc.0 += 1;
+        let (accepted, v) = check_doc(s);
+        if accepted {
+            acc.1 += 1;
+        }
+        if let Some((class, summary)) = v {
+            ctx.violation(class, summary, json!({"kind": "doc", "hex": core::hex(s), "text": core::show(s)}));
+        }
+    });
+    let sigma: u64 = accs.iter().map(|a| a.0).sum();
+
+    // (b) grammar
+    let docs = grammar(ctx.tier == core::Tier::Thorough);
+    let res = core::par_map(&docs, |_| core::set_quiet_panics(true), |_, _, d| check_doc(d));
+    let mut accepted = 0u64;
+    for (d, (acc, v)) in docs.iter().zip(res.iter()) {
+        if *acc {
+            accepted += 1;
+        }
+        if let Some((class, summary)) = v {
+            ctx.violation(class, summary.clone(), json!({"kind": "doc", "hex": core::hex(d), "text": core::show(d)}));
+        }
+    }
+    if accepted < 100 {
+        ctx.machinery_error(format!("vacuity: only {} grammar documents accepted", accepted));
+    }
+
+    // (c) create_file round trips
+    let dir = core::private_cwd("c17", "w");
+    let mut created = 0;
+    let sizes = [0usize, 1, 262143, 262144, 262145, 524288, 524289];
+    for name in ["f.bin", "with space", "\u{fc}n\u{ef}.dat"] {
+        for &len in &sizes {
+            created += 1;
+            if let Some((class, summary)) = create_file_case(&dir, name, len) {
+                ctx.violation(class, summary, json!({"kind": "create", "name": name, "len": len}));
+            }
+        }
+    }
+
+    let mut o = Outcome::new("exploration");
+    o.set("evaluations", json!(sigma + docs.len() as u64 + created));
+    o.set("distinct_nontrivial", json!(accepted + created));
+    o.set("rule", json!(format!("(a) every string over the C16 alphabet of length 0..={} through Metainfo::from_bencode (totality); (b) grammar documents: piece length x pieces x length x files (0..{} entries incl. malformed ones) in full product, announce/name/extra-key variants over a reduced layout alphabet, all distinct after dedup; on success fields are compared with the harness's reading and tracker_url/pieces_num/piece(i)/piece_length(i)/total_length/info_hash/file_piece_ranges are called under catch_unwind; (c) create_file for 7 boundary sizes x 3 names. Non-trivial = grammar documents accepted by from_bencode plus create_file cases.", max_len, if ctx.tier == core::Tier::Thorough { 3 } else { 2 })));
+    o.set("sigma_strings", json!(sigma));
+    o.set("grammar_documents", json!(docs.len()));
+    o.set("grammar_accepted", json!(accepted));
+    o.set("create_file_cases", json!(created));
+    let picks = ctx.seeded_pick(docs.len(), 4);
+    o.set("samples", Value::Array(picks.iter().map(|i| json!({"doc": core::show(&docs[*i]), "accepted": res[*i].0})).collect()));
+    o.set("exhaustive", json!(true));
+    o.assume("harness reading of a document = last occurrence of each key, malformed `files` entries skipped (as the repository's own tests demand), `path` taken as one string as this implementation does");
+    o.assume("built with overflow-checks on, as cargo test / cargo run (dev profile) do; a wrapped total is also reported through the explicit comparison");
+    o
+}
+
+pub fn replay(_ctx: &Ctx, r: &Value) -> i32 {
+    if r["kind"] == "create" {
+        let dir = core::private_cwd("c17", "w");
+        let res = create_file_case(&dir, r["name"].as_str().unwrap(), r["len"].as_u64().unwrap() as usize);
+        println!("{:?}", res);
+        return if res.is_some() { 1 } else { 0 };
+    }
+    let hexs = r["hex"].as_str().unwrap_or("");
+    let bytes: Vec<u8> = (0..hexs.len() / 2).map(|i| u8::from_str_radix(&hexs[2 * i..2 * i + 2], 16).unwrap()).collect();
+    println!("document: {}", core::show(&bytes));
+    println!("from_bencode: {:?}", core::catch(|| Metainfo::from_bencode(&bytes)));
+    match check_doc(&bytes).1 {
+        Some((class, s)) => {
+            println!("VIOLATION property=C17 replay=<this file>\n  class={} {}", class, s);
+            1
+        }
+        None => {
+            println!("holds for this document");
+            0
+        }
+    }
+}
